@@ -11,8 +11,11 @@ for s in $sel; do
   p=${s%%_*}
   if ! git -C /repo apply --check /verif/seeded/$s/patch.diff 2>/dev/null; then echo "$s: patch does not apply"; echo "$s|patch does not apply" >> $tmp; continue; fi
   git -C /repo apply /verif/seeded/$s/patch.diff
+  # the evidence file must keep describing the UNCHANGED tree: save it around the run on the changed tree
+  ev=$(mktemp); cp evidence/$p.json $ev 2>/dev/null
   out=$(bin/gvc check -prop $p 2>&1); rc=$?
   git -C /repo checkout -- .
+  [ -s $ev ] && cp $ev evidence/$p.json; rm -f $ev
   obl=$(echo "$out" | grep '^VIOLATION' | head -3 | sed -E 's/.*obligation=([^ ]*) reason="[^"]*\(([a-z]+)\)[^"]*"(.*)$/\1 [\2]\3/; s/^[^ ]*:://' | tr '\n' ';')
   if [ $rc -eq 1 ]; then echo "$s: DETECTED ($obl)"; echo "$s|detected: $obl" >> $tmp; else echo "$s: MISSED (exit $rc)"; echo "$s|missed" >> $tmp; miss=$((miss+1)); fi
 done
